@@ -9,7 +9,7 @@ import time
 from . import programs
 from .runtime import to_json
 
-SPEC_DIR = os.path.join(os.path.dirname(os.path.dirname(os.path.abspath(__file__))), 'spec')
+SPEC_DIR = os.environ.get('VERIF_SPEC_DIR') or os.path.join(os.path.dirname(os.path.dirname(os.path.abspath(__file__))), 'spec')
 JAR = '/opt/veriftools/tla/tla2tools.jar'
 CM = '/opt/veriftools/tla/CommunityModules-deps.jar'
 
